@@ -15,6 +15,18 @@ HARNESSES = [
      'rungs': {'quick': [{'defines': ['NVTB=1', 'SIMPLECTX'], 'bound': 'ALT chain 1-2-3 + fork block 4; VBK and BTC chains of 3 blocks; per ALT block whole VBK context or none; 1 VTB with symbolic endorsed/containing VBK block, BTC block of proof and BTC context start; setState x3', 'timeout': 280}],
                'thorough': [{'defines': ['NVTB=2'], 'bound': 'as quick with every VBK context range and 2 VTBs', 'timeout': 5000}, {'defines': ['NVTB=1'], 'bound': 'as quick with every VBK context range', 'timeout': 900}]}},
 ]
+MEMPOOL_HARNESSES = [
+    {'name': 'h_mempool_vbk', 'src': 'real/h_mempool.cpp', 'entry': 'h_mempool', 'repo_srcs': srcsets_real.REAL, 'defines': ['MODE_VBK'], 'covers': [1, 2], 'jobs': 16,
+     'obligations': ['REAL MemPool: after every submit each known VBK block is connected XOR in flight, never lost; per-type map, relations and the height-sorted in-flight view describe the same set; isKnown agrees',
+                     'REAL MemPool: generatePopData connects every in-flight block whose missing context has been submitted (any submission order, forks, orphans) and returns exactly the connectable context',
+                     'REAL MemPool (C12): generatePopData leaves the ALT/VBK/BTC views unchanged, respects the limits, and a next ALT block carrying exactly this PopData connects and activates',
+                     'REAL MemPool: removeAll forgets what went into a block; it never reappears in later generatePopData'],
+     'rungs': {'quick': [{'defines': ['NSUB=3'], 'bound': 'VBK blocks from a miner tree (chain of 4, a fork of 2) submitted in every order of 3 submissions (with repeats), then generatePopData, block acceptance, removeAll, generatePopData', 'timeout': 280}],
+               'thorough': [{'defines': ['NSUB=5'], 'bound': 'every sequence of 5 submissions', 'timeout': 3000}, {'defines': ['NSUB=4'], 'bound': 'every sequence of 4 submissions', 'timeout': 900}]}},
+    {'name': 'h_mempool_stale', 'src': 'real/h_mempool.cpp', 'entry': 'h_mempool', 'repo_srcs': srcsets_real.REAL, 'defines': ['MODE_STALE'], 'covers': [1], 'jobs': 2,
+     'obligations': ['REAL MemPool::cleanUp on a pool holding 1..2 connected ATVs whose VBK block fell behind the old-blocks window: no freed memory is touched (engine use-after-free check), stale payloads are forgotten'],
+     'rungs': {'quick': [{'bound': '1..2 connected ATVs on a VBK block 3 blocks behind the VBK tip, old-blocks window 1 (pool state constructed directly: what a successful submit<ATV> leaves)', 'timeout': 200}], 'thorough': [{'bound': 'as quick', 'timeout': 400}]}},
+]
 EXPLANATION = 'F-REAL: the real three-tree system runs in the engine with hand-made payloads (preset header hashes, real payload ids); the scenario space is explored exhaustively by solver-driven case splits and every verdict is compared with an independent integer specification.'
 ASSUMPTIONS = ['header hashes of VBK/BTC blocks are preset (no progpow/SHA-256 for headers); payload ids use the real SHA-256 (executed concretely)', 'signatures are arbitrary bytes: stateless checks are not part of tree operations',
                'scenario parameters are case-split (concrete per path): this harness is exhaustive over its finite scenario space, not over all payload contents', 'VTBs / BTC context, mempool and finalization are not exercised by this harness']
